@@ -282,6 +282,10 @@ fn build(lens: &[u8]) -> HuffBuild {
         }
     }
     let mut h = Huff { count, symbol, last_code: None };
+    if left > 0 && max_len == 0 {
+        // no codes at all: every bit pattern is undefined as soon as one bit is read
+        h.last_code = Some((0, 0));
+    }
     if left > 0 && max_len > 0 {
         // canonical value of the last code of maximum length
         let mut code = 0u32;
@@ -577,7 +581,11 @@ impl<'a, 'b> Ctx<'a, 'b> {
                 let len = self.ld.len_base[li] as usize
                     + self.br.bits(self.ld.len_extra[li] as u32).ok_or(Stop::Trunc)? as usize;
                 let dsym = match dist {
-                    None => return Err(Stop::Inv(InvalidKind::UndefinedCode(Table::Dist))),
+                    None => {
+                        // empty distance code: undefined as soon as a bit of the code is there
+                        self.br.bit().ok_or(Stop::Trunc)?;
+                        return Err(Stop::Inv(InvalidKind::UndefinedCode(Table::Dist)));
+                    }
                     Some(d) => match decode(d, &mut self.br) {
                         Dec::Sym(s) => s as usize,
                         Dec::Eof => return Err(Stop::Trunc),
